@@ -43,7 +43,7 @@ FILE_CHECKS = {
     "src/gallia/commands/scan/uds/services.py": ["C10"],
     "src/gallia/commands/scan/uds/identifiers.py": ["C10"],
     "src/gallia/command/base.py": ["C15"],
-    "src/gallia/command/uds.py": ["C15", "C10"],
+    "src/gallia/command/uds.py": ["C11", "C15", "C10"],
     "src/gallia/db/handler.py": ["C11", "C15", "C12"],
     "src/gallia/log.py": ["C17"],
     "src/gallia/cli/hr.py": ["C17"],
@@ -263,6 +263,7 @@ def main():
     ap.add_argument("--ids", default="")
     ap.add_argument("--kinds", default="")
     ap.add_argument("--lines", default="", help="file-relative line range a-b to restrict to (single file)")
+    ap.add_argument("--from-survivors", default="", help="re-run the survivors recorded in this results file (instead of sampling)")
     ap.add_argument("--wbase", type=int, default=0, help="first worker index (use distinct ranges for concurrent sweeps)")
     a = ap.parse_args()
     files = [f for f in a.files.split(",") if f] or list(FILE_CHECKS)
@@ -278,6 +279,12 @@ def main():
             ms = [m for m in ms if lo <= m["line"] <= hi]
         rng.shuffle(ms)
         todo += ms[: a.per_file]
+    if a.from_survivors:
+        todo = []
+        for l in Path(a.from_survivors).read_text().splitlines():
+            d = json.loads(l)
+            if d.get("status") in ("survived", "error") and (not a.files or d["file"] in files):
+                todo.append({k: d[k] for k in ("file", "line", "kind", "desc", "old", "new")})
     SCRATCH.mkdir(parents=True, exist_ok=True)
     done = set()
     outp = Path(a.out)
